@@ -1056,6 +1056,9 @@ struct SeqRun
                         // which the rank by insertion order cannot show (the immune key simply grows old).
                         int lab = rr_label[victim];
                         st.bump("rr.purerank." + std::to_string(L0k.size()) + "." + std::to_string(lab));
+                        // the same, restricted to runs whose calls are each made by a newly created thread
+                        if (plan.cfg.fresh_thread)
+                            st.bump("rr.freshrank." + std::to_string(L0k.size()) + "." + std::to_string(lab));
                         rr_label.erase(victim);
                         rr_label[k] = lab;
                     }
